@@ -60,6 +60,14 @@ CHECKS = {
             "(Inv_Prefix, Inv_Tail, Inv_Done, Inv_Prompt, Act_ExactlyOnce); each explored transition is executed on the real "
             "parse_space_packets both from the materialised pre-state and along real paths; random long histories of real PUS "
             "packets are validated by the Trace_SpParser trace specification.", "DESIGN.md 5/C13", ""),
+    "C15": (True, "model_checking",
+            "TLA+ codec spec of request ID / service-1 reports; TLC grid model checking + vector replay; TLC trace validation "
+            "(request-ID halves exhaustive)",
+            "Pus1.tla states the request ID as the first four header octets and the report source-data layout; TLC checks "
+            "round-trip, header-prefix and injectivity laws on the grid and every vector (8 subservices x step / failure "
+            "options x widths x routes incl. the create_* helpers for real telecommands, prefixes, foreign widths) is executed "
+            "on the code; RequestId.unpack is recorded for all 2^16 values of each half and validated by TLC together with "
+            "random reports.", "DESIGN.md 5/C15", ""),
     "C16": (True, "model_checking",
             "TLA+ state machine of the verification tracker; TLC exhaustive over all report histories of 2 TCs; every "
             "transition replayed on real PusVerificator objects; TLC trace validation of random histories",
@@ -74,5 +82,5 @@ CHECKS = {
             "than 2^W calls (W = 14, 8, 16 ...) with random restart points are validated by Trace_SeqCount.", "DESIGN.md 5/C19", ""),
 }
 NOT_YET = {}
-for _i in [4, 9, 10, 11, 14, 15, 17, 18, 20]:
+for _i in [4, 9, 10, 11, 14, 17, 18, 20]:
     NOT_YET[f"C{_i:02d}"] = "check not built yet in this revision of /verif (construction in progress, see DESIGN.md 11)"
